@@ -1,6 +1,8 @@
 #!/usr/bin/env python3
 """Applies every seeded change under /verif/seeded to /repo in turn, runs the quick check of the property it
 targets (and optionally others), restores /repo, and prints / records the verdicts."""
+import os
+REPO = os.environ.get("VERIF_REPO") or "/repo"
 import json, os, subprocess, sys
 ROOT = "/verif/seeded"
 res = {}
@@ -15,11 +17,11 @@ for d in sorted(os.listdir(ROOT)):
     mp0 = os.path.join(ROOT, d, "meta.json")
     if os.path.exists(mp0) and json.load(open(mp0)).get("obsolete_after"):
         res[d] = "OBSOLETE (" + json.load(open(mp0))["obsolete_after"] + ")"; print(f"{d:45s} {prop}: {res[d]}", flush=True); continue
-    subprocess.run(["git", "-C", "/repo", "checkout", "--", "."], check=True)
-    r = subprocess.run(["git", "-C", "/repo", "apply", pd])
+    subprocess.run(["git", "-C", REPO, "checkout", "--", "."], check=True)
+    r = subprocess.run(["git", "-C", REPO, "apply", pd])
     if r.returncode != 0: res[d] = "patch does not apply"; continue
     out = subprocess.run(["./check", prop], cwd="/verif", capture_output=True, text=True).stdout
-    subprocess.run(["git", "-C", "/repo", "checkout", "--", "."], check=True)
+    subprocess.run(["git", "-C", REPO, "checkout", "--", "."], check=True)
     v = [l for l in out.split("\n") if l.startswith("VIOLATION")]
     found = [l for l in v if "no-failing-input-found" not in l]
     verdict = "CAUGHT with failing input" if found else ("CAUGHT (no-failing-input-found)" if v else "MISSED")
@@ -28,5 +30,5 @@ for d in sorted(os.listdir(ROOT)):
     mp = os.path.join(ROOT, d, "meta.json")
     if os.path.exists(mp):
         m = json.load(open(mp)); m["regression_verdict_quick"] = verdict; json.dump(m, open(mp, "w"), indent=1)
-subprocess.run(["git", "-C", "/repo", "checkout", "--", "."], check=True)
+subprocess.run(["git", "-C", REPO, "checkout", "--", "."], check=True)
 json.dump(res, open(os.path.join(ROOT, "REGRESSION.json"), "w"), indent=1)
